@@ -27,6 +27,7 @@ def regenerate(res):
         res.broken.append({"what": "T1 translator: digital_rf_get_subdir_file left the supported subset", "log": str(e)})
         return
     common.write_if_changed(os.path.join(common.COQ, "Gen", "LayoutGen.v"), text)
+    c03.regenerate_time_parts(res)
 
 
 def cdiv(a, b):
